@@ -35,6 +35,11 @@ class Ctx:
     def bool(self, name):
         return sv.boolean(name)
 
+    def array_fact(self, fname, fact):
+        """universally quantified precondition about an input array given as an uninterpreted function `fname`:
+        fact(*index_terms) -> z3 Bool; instantiated for every application of the symbol that occurs in a query"""
+        self.state.array_facts.append((fname, fact))
+
     def assume(self, cond):
         """precondition (requires)"""
         if isinstance(cond, SV):
@@ -197,6 +202,13 @@ class ObResult:
         return d
 
 
+def _opts(o, ctx):
+    d = dict(o or {})
+    if ctx.state.array_facts:
+        d["array_facts"] = list(ctx.state.array_facts) + list(d.get("array_facts") or [])
+    return d
+
+
 def run_unit(unit, case, tier="quick"):
     """-> dict with obligations (list of ObResult dicts), meta"""
     t0 = time.time()
@@ -268,7 +280,7 @@ def run_unit(unit, case, tier="quick"):
                     goal = z3.BoolVal(False)
                 else:
                     goal = sv.zb(allowed) if not isinstance(allowed, bool) else z3.BoolVal(allowed)
-                v = solve.prove(assum, goal, timeout, unit.solver_opts)
+                v = solve.prove(assum, goal, timeout, _opts(unit.solver_opts, ctx))
                 v.reason = (v.reason + f" raises {out.exc}: {out.msg} at {out.state.where}").strip()
                 if out.exc == "unresolved-callee" and v.status != solve.PROVED and not getattr(unit, "unresolved_is_failure", False):
                     # the engine has no contract for a library function the code calls: not a verdict about the code
@@ -294,13 +306,14 @@ def run_unit(unit, case, tier="quick"):
                 extra_as = [sv.zb(x) if isinstance(x, SV) else x for x in gopts.get("assume", []) if not isinstance(x, bool) or not x]
                 extra_as = [z3.BoolVal(False) if isinstance(x, bool) else x for x in extra_as]
                 ob.add(solve.prove(assum + extra_as, gz, gopts.get("timeout", timeout),
-                                    dict(gopts.get("solver_opts", unit.solver_opts) or {}, rewrites=gopts.get("rewrites"),
+                                    dict(_opts(gopts.get("solver_opts", unit.solver_opts), ctx), rewrites=gopts.get("rewrites"),
                                          ring_only=gopts.get("ring_only", False), try_eval=gopts.get("try_eval", False))), ptag)
         # cover: at least one returning path is feasible
         cover = ObResult(f"{uname}:cover")
         ncov = 0
+        only_raise = bool(getattr(unit, "may_only_raise", lambda c: False)(case))
         for out in outcomes:
-            if out.kind == "return":
+            if out.kind == "return" or only_raise:
                 r, _ = solve.satisfiable(out.state.all_assumptions(), timeout_s=5)
                 if r != "unsat":
                     ncov += 1
@@ -317,7 +330,7 @@ def run_unit(unit, case, tier="quick"):
             if key in seen:
                 continue
             seen.add(key)
-            v = solve.prove(assum, so.cond, timeout, unit.solver_opts)
+            v = solve.prove(assum, so.cond, timeout, _opts(unit.solver_opts, ctx))
             v.reason = (v.reason + f" {so.kind} at {so.where}").strip()
             safety.add(v, so.kind)
         if not side:
